@@ -223,7 +223,8 @@ def completion(r):
     return bytes(lo for lo, hi in r)
 
 
-ENTRIES = ["WebSocket()", "create_connection()", "create_connection(skip=...)", "WebSocket(skip=...).connect()", "second connect() after connect(skip_utf8_validation=True, fire_cont_frame=True)()"]
+ENTRIES = ["WebSocket()", "create_connection()", "create_connection(skip=...)", "WebSocket(skip=...).connect()", "second connect() after connect(skip_utf8_validation=True, fire_cont_frame=True)()",
+           "reconnected after the peer dropped the connection between two fragments()", "reconnected after the peer dropped the connection inside a frame()"]
 
 
 def e2e_case(payload, nfrag_cuts, validate, api, as_close=False, entry=None):
@@ -262,6 +263,8 @@ def e2e_case(payload, nfrag_cuts, validate, api, as_close=False, entry=None):
             del sock.stream[sock.cursor:]
             sock.log = []
             sock.written = bytearray()
+        elif entry.startswith("reconnected after the peer dropped"):
+            ws, sock = env.prepared_ws("reused-eof-midmessage" if "fragments" in entry else "reused-eof-midframe")
         elif entry == "create_connection(skip=...)":
             ws, sock = env.prepared_ws("created", skip_utf8_validation=not validate)
         else:
